@@ -1,0 +1,39 @@
+//! Verification hooks. Compiled only with `--cfg rustfft_verif`; never part of a normal build.
+//!
+//! The macro below textually shadows `std::is_x86_feature_detected!` for every module declared
+//! after this one, so that a verification harness can hide CPU capabilities the real CPU has.
+//! A mask can only remove capabilities, never add them.
+use std::sync::atomic::{AtomicU32, Ordering};
+
+pub const MASK_AVX: u32 = 1;
+pub const MASK_FMA: u32 = 2;
+pub const MASK_AVX2: u32 = 4;
+pub const MASK_SSE41: u32 = 8;
+
+static CPU_MASK: AtomicU32 = AtomicU32::new(0);
+
+/// Hide the given capabilities from every later feature-detection query in this crate
+pub fn set_cpu_mask(mask: u32) {
+    CPU_MASK.store(mask, Ordering::SeqCst);
+}
+pub fn cpu_mask() -> u32 {
+    CPU_MASK.load(Ordering::SeqCst)
+}
+
+#[doc(hidden)]
+pub fn feature_visible(name: &str, real: bool) -> bool {
+    let bit = match name {
+        "avx" => MASK_AVX,
+        "fma" => MASK_FMA,
+        "avx2" => MASK_AVX2,
+        "sse4.1" => MASK_SSE41,
+        _ => 0,
+    };
+    real && (cpu_mask() & bit == 0)
+}
+
+macro_rules! is_x86_feature_detected {
+    ($f:tt) => {
+        $crate::verif_hooks::feature_visible($f, ::std::is_x86_feature_detected!($f))
+    };
+}
